@@ -4,13 +4,16 @@
 wt="$1"; mod="$2"; pat="$3"; pkg="${4:-./keeper/}"
 export GOFLAGS=-mod=mod GOPROXY=off GOSUMDB=off GOTOOLCHAIN=local
 cd "$wt/modules/$mod" || exit 3
+hold=/tmp/_demo_hold_$(basename "$wt")_$$
 demo=$(cd "$wt" && git status --short | grep '^??' | grep '_test.go' | awk '{print $2}' | grep -v '^seed/' | head -1)
 echo "demo file: $demo"
-mv "$wt/$demo" /tmp/_demo_hold.go
+mv "$wt/$demo" $hold
 t1=$(go test -vet=off -count=1 ./... 2>&1 | grep -v "no test files" | grep -c "^FAIL\|^---"); echo "existing tests with change: failures=$t1"
-mv /tmp/_demo_hold.go "$wt/$demo"
-go test -vet=off -count=1 $pkg -run "$pat" > /tmp/_d1.log 2>&1; r1=$?; echo "demo with change: rc=$r1 ($(grep -c -- '--- FAIL' /tmp/_d1.log) failing)"
+mv $hold "$wt/$demo"
+go test -vet=off -count=1 $pkg -run "$pat" > $hold.d1 2>&1; r1=$?; echo "demo with change: rc=$r1 ($(grep -c -- '--- FAIL' $hold.d1) failing)"
 (cd "$wt" && git apply -R seed/patch.diff) || { echo "cannot revert patch"; exit 3; }
-go test -vet=off -count=1 $pkg -run "$pat" > /tmp/_d2.log 2>&1; r2=$?; echo "demo without change: rc=$r2"
+go test -vet=off -count=1 $pkg -run "$pat" > $hold.d2 2>&1; r2=$?; echo "demo without change: rc=$r2"
 (cd "$wt" && git apply seed/patch.diff)
-if [ $t1 -eq 0 ] && [ $r1 -ne 0 ] && [ $r2 -eq 0 ]; then echo "CONFIRMED"; else echo "NOT CONFIRMED"; tail -5 /tmp/_d1.log /tmp/_d2.log; fi
+if [ $t1 -eq 0 ] && [ $r1 -ne 0 ] && [ $r2 -eq 0 ]; then echo "CONFIRMED"; else echo "NOT CONFIRMED"; tail -n 5 $hold.d1; tail -n 5 $hold.d2; fi
+
+rm -f $hold $hold.d1 $hold.d2
